@@ -350,7 +350,15 @@ class LocalStorageBackend(StorageBackend):
 
         base_path = self._real_base_path()
         result = []
-        for root, _dirs, files in os.walk(full_prefix):
+
+        def _walk_error(err: OSError) -> None:
+            # os.walk() swallows scandir errors by default, so an unreadable
+            # directory (EACCES, EIO) silently listed as EMPTY. Callers decide
+            # what to delete (GC) or whether a table exists (recovery) from this
+            # listing - an error must surface, never a short list.
+            raise err
+
+        for root, _dirs, files in os.walk(full_prefix, onerror=_walk_error):
             for file in files:
                 full_path = os.path.join(root, file)
                 # Return path relative to the canonical base_path
